@@ -1,4 +1,5 @@
 use crate::Comp;
+pub mod co;
 pub mod nio;
 pub mod qconc;
 pub mod queue;
@@ -15,5 +16,6 @@ pub static ALL: &[Comp] = &[
     Comp { name: "tlcache", gen: tlcache::gen, exec: tlcache::exec, isolate_ms: 5000 },
     Comp { name: "timeouts", gen: timeouts::gen, exec: timeouts::exec, isolate_ms: 5000 },
     Comp { name: "rtwait", gen: rtwait::gen, exec: rtwait::exec, isolate_ms: 10000 },
+    Comp { name: "co", gen: co::gen, exec: co::exec, isolate_ms: 5000 },
     Comp { name: "pq", gen: queue::gen_pq, exec: queue::exec_pq, isolate_ms: 1000 },
 ];
